@@ -36,7 +36,7 @@ REMS = ["yui::<&'a types::qint::QuadInt<I, -1> as std::ops::Rem<&'b types::qint:
 
 
 def sk(t):
-    return re.sub(r'#\d+\.\d+', '', show(t, -60))
+    return re.sub(r'#(?:i\d+:)?\d+\.\d+', '', show(t, -60))
 
 
 class Unrec(Exception):
